@@ -10,6 +10,7 @@ import Driver.Repair
 import Driver.Forwarder
 import Driver.MuxPool
 import Driver.ConnMap
+import Driver.Gossip
 /-
 Model driver: reads the op lines a harness engine wrote (first line `engine <name>`), runs the
 executable Lean model, prints one observation line per op line.  `/verif/check` diffs this
@@ -32,6 +33,7 @@ inductive St where
   | forwarder (d : Drv.Forwarder.DSt)
   | muxpool (s : Drv.MuxPool.DSt)
   | connmap (s : Option S2S.ConnMap.St)
+  | gossip (d : Drv.Gossip.DSt)
 
 def initSt (engine : String) : Option St :=
   match engine with
@@ -49,6 +51,7 @@ def initSt (engine : String) : Option St :=
   | "muxpool" => some (.muxpool { d := S2S.MuxPool.Defects.fixed })
   | "muxpool-asis" => some (.muxpool { d := S2S.MuxPool.Defects.asIs })
   | "connmap" => some (.connmap Option.none)
+  | "gossip" => some (.gossip {})
   | _ => Option.none
 
 def stepSt (st : St) (line : String) : St × String :=
@@ -67,6 +70,7 @@ def stepSt (st : St) (line : String) : St × String :=
   | .forwarder d => let (d', o) := Drv.Forwarder.step d line; (.forwarder d', o)
   | .muxpool s => let (s', o) := Drv.MuxPool.step s line; (.muxpool s', o)
   | .connmap s => let (s', o) := Drv.ConnMap.step s line; (.connmap s', o)
+  | .gossip d => let (d', o) := Drv.Gossip.step d line; (.gossip d', o)
 
 partial def loop (h : IO.FS.Stream) (out : IO.FS.Stream) (st : St) : IO Unit := do
   let line ← h.getLine
